@@ -7,7 +7,7 @@ from vlib import core
 
 PROPS = ["Props/C14.v", "Props/C14src.v"]
 TRANSLATORS = ["poll"]      # translate/poll.py: poll_mads_2n + the refill block of _poll_step_ -> coq/gen/Src_poll.v (A.20)
-THEOREMS = ["C14_directions_are_source", "C14_candidates_are_source", "C14_refill_test_is_source", "C14_det_formula", "C14_model_is_matrix", "C14_basis_nonsingular", "C14_positive_span_unit",
+THEOREMS = ["C14_directions_are_source", "C14_candidates_are_source", "C14_forced_candidates_are_source", "C14_refill_test_is_source", "C14_det_formula", "C14_model_is_matrix", "C14_basis_nonsingular", "C14_positive_span_unit",
             "C14_positive_span", "C14_plus_minus_pairs", "C14_entries_bounded", "C14_default_is_coordinate",
             "C14_default_mesh_ratio_is_one", "C14_poll_points", "C14_poll_loop_each_row_once"]
 LEVEL = "proof"
